@@ -44,7 +44,9 @@ def differential():
     samples = ['', 'a', 'ab c', ' a  b ', '(S[dcl]\\NP)/NP', 'a<b>|c', "x'y\\z", '][conj]', 'a,b=c', '-LRB-', 'Ａ　ｂ', 'é-ß', '\tq\n', 'aXbXc', 'NP[nb]/N']
     args = {'split': [(), (' ',), ('X',), (',',)], 'strip': [(), ('a',), (' x',)], 'lstrip': [()], 'rstrip': [()], 'find': [('b',), ('X', 2), ('',)], 'rfind': [('b',)],
             'replace': [('a', 'bb'), ('X', ''), ('>', '-RAB-')], 'startswith': [('a',), ('(',)], 'endswith': [(']',), ('c',)], 'count': [('X',), ('a',)], 'lower': [()],
-            'join': [(['p', 'q'],), ([],)], 'index': [('a',)], 'splitlines': [()], 'isspace': [()]}
+            'join': [(['p', 'q'],), ([],)], 'index': [('a',)], 'splitlines': [()], 'isspace': [()],
+            'partition': [('X',), (' ',), ('[',)], 'rpartition': [('X',), ('b',)], 'rsplit': [('X', 1), (' ', 2), ('a',)], 'removeprefix': [('a',), ('(S',)], 'removesuffix': [('c',), ('',)],
+            'ljust': [(6,), (2, '*')], 'rjust': [(7, '.')], 'center': [(6,), (7,), (8, '-'), (1,)]}
     for s in samples:
         ss = core.mk(list(map(ord, s)))
         for m, argl in args.items():
